@@ -187,7 +187,8 @@ func runC11(o *cli.Opts, run *evid.Run) {
 			if !run.Wants(key) {
 				continue
 			}
-			ps, k, err := smallSystem(r)
+			// hint-bearing circuits of varying size, plausible header
+			ps, k, err := smallSystemK(r, 1+r.Intn(6), uint32(1+r.Intn(32)), uint32(40+r.Intn(64)), true)
 			if err != nil {
 				continue
 			}
